@@ -96,6 +96,8 @@ def specRecord (steps : List (Step J)) (root : MNode J) (nested : Bool) (o : QOp
     ("x", match r.2 with | some e => encExc e | none => .null),
     ("sx", match exc with | some e => encExc e | none => .null),
     ("att", natJ (attempts full)),
+    ("attTop", natJ (attemptsTop full)),
+    ("exams", natJ (exams steps root)),
     ("top", .arr (top.map (encEv id)).toArray),
     ("first", first),
     ("firstExtra", .arr extra.toArray)]
